@@ -306,13 +306,13 @@ pub fn run(cfg: &Cfg, rep: &mut Report) {
   // linearization of the calls (call/return stamps) fed to the sequential model
   let n = cfg.n(12_000, 600_000);
   let orc = |o: &super::thr::Outcome, s: &super::thr::Scen| super::thr::two_input_name(s).and_then(|name| super::thr::linearizable(o, s, name));
-  super::thr::systematic_families(cfg, rep, 0xC04A, &[2, 3, 4, 5, 6, 7, 8], &|_, _| {}, &orc);
+  super::thr::systematic_families(cfg, rep, 0xC04A, &[2, 3, 4, 5, 6, 7, 8, 26], &|_, _| {}, &orc);
   super::thr::campaign(cfg, rep, "thr", n, 0xC04F, &mut |r: &mut Rng| {
-    let f = 2 + r.below(7);
+    let f = [2usize, 3, 4, 5, 6, 7, 8, 26][r.below(8)];
     super::thr::random_scen(r, f)
   }, &orc);
   super::thr::free_campaign(cfg, rep, cfg.n(2_000, 200_000), 0xC04E, &mut |r: &mut Rng| {
-    let f = 2 + r.below(7);
+    let f = [2usize, 3, 4, 5, 6, 7, 8, 26][r.below(8)];
     super::thr::random_scen(r, f)
   }, &orc);
 }
